@@ -161,6 +161,8 @@ class Engine(ExprMixin, CallMixin, StmtMixin):
         return T.parse_ty(s, al)
 
     def fresh_of(self, ty, hint):
+        if isinstance(ty, T.ObjMap):
+            return self.om_fresh(ty, hint)
         if isinstance(ty, T.Obj):
             return self.reg.layouts[ty.cls].fresh_obj(hint)
         if isinstance(ty, T.Opt) and isinstance(ty.t, T.Obj):
@@ -551,10 +553,10 @@ class Engine(ExprMixin, CallMixin, StmtMixin):
             q.assume(cond)
             if not quick_unsat(q.hyps, self.prune_ms):
                 if c.on_raise is not None:
-                    self.havoc_call(c, q, recv, rname, bound, arg_exprs, "exc")
+                    pr = self.havoc_call(c, q, recv, rname, bound, arg_exprs, "exc")
                     env2 = dict(bound)
-                    if rname:
-                        env2["self"] = q.env[rname]
+                    if recv is not None:
+                        env2["self"] = pr
                     for name, g in self.eval_clauses(c.on_raise, env2, q, cx0).items():
                         q.assume(g)
                 self.pending.append((q, exc))
@@ -585,14 +587,20 @@ class Engine(ExprMixin, CallMixin, StmtMixin):
     def havoc_call(self, c, p, recv, rname, bound, arg_exprs, hint):
         post_recv = recv
         if recv is not None and c.modifies:
-            if rname is None:
+            ref = getattr(recv, "ref", None)
+            if rname is None and ref is None:
                 raise Unsupported("mutating call on a receiver that is not a plain name")
             lay = self.reg.layouts[recv.ty.cls]
             nf = dict(recv.fields)
             for f in c.modifies:
                 nf[f] = T.fresh_value(lay.fields[f], f"{hint}_{f}")
             post_recv = T.sv_obj(recv.ty.cls, nf)
-            p.env[rname] = post_recv
+            if ref is not None:
+                post_recv.ref = ref
+            if rname is not None:
+                p.env[rname] = post_recv
+            if ref is not None:
+                self.om_writeback(post_recv, p)
         if c.modifies_args:
             if arg_exprs is None:
                 raise Unsupported("modifies_args on a method call")
